@@ -433,44 +433,57 @@ Fixpoint split_group (rs : list sysres) : list sysres * list sysres :=
 
 Definition new_calls (s s' : st) : list obs := map call_obs (skipn (length (s_calls s)) (s_calls s')).
 
-Fixpoint explain (fuel : nat) (c : cfg) (may_stop may_fderr : bool) (s : st) (rs : list sysres) (ob : list obs) : bool :=
+(* every visited state costs one unit of `budget`; the result carries what is left (0 = the search was cut off) *)
+Fixpoint explain (fuel : nat) (c : cfg) (may_stop may_fderr : bool) (s : st) (rs : list sysres) (ob : list obs)
+  (budget : Z) : bool * Z :=
   match fuel with
-  | O => false
+  | O => (false, budget)
   | S fuel =>
-      let try (s' : st) (rs' : list sysres) : bool :=
+      if budget <=? 0 then (false, 0) else
+      let budget := budget - 1 in
+      let try (s' : st) (rs' : list sysres) (b : Z) : bool * Z :=
         match strip_prefix (new_calls s s') ob with
-        | Some ob' => explain fuel c may_stop may_fderr s' rs' ob'
-        | None => false
+        | Some ob' => explain fuel c may_stop may_fderr s' rs' ob' b
+        | None => (false, b)
         end in
       match s_phase s with
-      | Completed => match rs, ob with [], [] => true | _, _ => false end
+      | Completed => (match rs, ob with [], [] => true | _, _ => false end, budget)
       | ph =>
           (* the deterministic next move of the handler (if-then-else, not orb: vm_compute is call-by-value) *)
-          if (match ph with
-              | Idle => try (step c s EvCheck) rs
-              | Picked =>
-                  if negb (get_error (s_closed s) (s_stopped s) (s_fderr s) true =? 0) then try (step c s (EvPerform [])) rs
-                  else let '(g, r) := split_group rs in
-                       match first_result g with
-                       | Some (Got bs) => if zlen bs <=? req_len c (s_op s) then try (step c s (EvPerform g)) r else false
-                       | Some _ => try (step c s (EvPerform g)) r
-                       | None => false
-                       end
-              | Performed _ => try (step c s EvAct) rs
-              | Completed => false
-              end) then true
+          let '(r1, b1) :=
+            match ph with
+            | Idle => try (step c s EvCheck) rs budget
+            | Picked =>
+                if negb (get_error (s_closed s) (s_stopped s) (s_fderr s) true =? 0) then try (step c s (EvPerform [])) rs budget
+                else let '(g, r) := split_group rs in
+                     match first_result g with
+                     | Some (Got bs) => if zlen bs <=? req_len c (s_op s) then try (step c s (EvPerform g)) r budget
+                                        else (false, budget)
+                     | Some _ => try (step c s (EvPerform g)) r budget
+                     | None => (false, budget)
+                     end
+            | Performed _ => try (step c s EvAct) rs budget
+            | Completed => (false, budget)
+            end in
+          if r1 then (true, b1) else
           (* asynchronous events *)
-          else if (if may_stop then if s_stopped s then false else try (step c s EvStop) rs else false) then true
-          else if (if may_fderr then if s_fderr s =? 0 then try (step c s (EvFdErr EBADF)) rs else false else false) then true
-          else if (if o_interval (s_op s) then
-                     let s' := step c s EvTimer in
-                     if negb (length (s_calls s') =? length (s_calls s))%nat
-                        || (is_active s && o_strict (s_op s) && negb (o_flagd (s_op s)))
-                     then try s' rs else false
-                   else false) then true
-          else if (if s_stopped s && negb (is_active s) then try (step c s (EvCleanup false)) rs else false) then true
-          else if negb (s_fderr s =? 0) && negb (is_active s) then try (step c s (EvCleanup true)) rs
-          else false
+          let '(r2, b2) := if may_stop then if s_stopped s then (false, b1) else try (step c s EvStop) rs b1 else (false, b1) in
+          if r2 then (true, b2) else
+          let '(r3, b3) := if may_fderr then if s_fderr s =? 0 then try (step c s (EvFdErr EBADF)) rs b2 else (false, b2)
+                           else (false, b2) in
+          if r3 then (true, b3) else
+          let '(r4, b4) :=
+            if o_interval (s_op s) then
+              let s' := step c s EvTimer in
+              if negb (length (s_calls s') =? length (s_calls s))%nat
+                 || (is_active s && o_strict (s_op s) && negb (o_flagd (s_op s)))
+              then try s' rs b3 else (false, b3)
+            else (false, b3) in
+          if r4 then (true, b4) else
+          let '(r5, b5) := if s_stopped s && negb (is_active s) then try (step c s (EvCleanup false)) rs b4 else (false, b4) in
+          if r5 then (true, b5) else
+          if negb (s_fderr s =? 0) && negb (is_active s) then try (step c s (EvCleanup true)) rs b5
+          else (false, b5)
       end
   end.
 
@@ -495,17 +508,21 @@ Definition apply_setters (p : params) (l : list setter) : params :=
 
 (* an operation as the client sees it: either it never reaches a stream (creation / enqueue on a closed, stopped or
    failed channel, or zero length) or it lives as above *)
-Definition explain_op (c : cfg) (may_stop may_close may_fderr : bool) (o : op) (rs : list sysres) (ob : list obs) : bool :=
+(* 1 = reproduced, 0 = no placement of the asynchronous events reproduces the observation, -1 = search cut off *)
+Definition explain_op (c : cfg) (may_stop may_close may_fderr : bool) (o : op) (rs : list sysres) (ob : list obs) : Z :=
   let imm (closed stopped : bool) :=
     match create_or_enqueue closed stopped 0 (o_write o) (o_length o) (o_data o) with
     | Some k => match rs, ob with [], [x] => obs_eqb (call_obs k) x | _, _ => false end
     | None => false
     end in
-  if imm false false then true
-  else if (if may_close then imm true false else false) then true
-  else if (if may_stop then imm false true else false) then true
-  else if o_length o =? 0 then false
-  else explain (4 * length rs + 4 * length ob + 24) c may_stop may_fderr (st_init o) rs ob.
+  if imm false false then 1
+  else if (if may_close then imm true false else false) then 1
+  else if (if may_stop then imm false true else false) then 1
+  else if o_length o =? 0 then 0
+  else
+    let n := Z.of_nat (length rs + length ob) in
+    let '(r, rest) := explain (4 * length rs + 4 * length ob + 24) c may_stop may_fderr (st_init o) rs ob (40 * n + 4000) in
+    if r then 1 else if rest <=? 0 then -1 else 0.
 
 (* a data object of n zero bytes in one region (the model's control flow never looks at byte values) *)
 Definition zeros (n : Z) : list Z := repeat 0 (Z.to_nat n).
